@@ -34,9 +34,17 @@ thread_local! {
 fn supplied_error(tag: &str) -> cosmwasm_std::StdError {
     cosmwasm_std::StdError::generic_err(format!("supplied failure {}", tag))
 }
+thread_local! {
+    /// when set, the supplied entry points answer with the attribute and the event only (no
+    /// messages), so that they can run inside an App
+    static PLAIN_RESPONSES: std::cell::Cell<bool> = const { std::cell::Cell::new(false) };
+}
 fn via<C: CustomMsg>(tag: &str) -> StdResult<Response<C>> {
     if SUPPLIED_FAIL.with(|f| f.get()) {
         return Err(supplied_error(tag));
+    }
+    if PLAIN_RESPONSES.with(|f| f.get()) {
+        return Ok(Response::new().add_attribute("via", tag).add_event(cosmwasm_std::Event::new("supplied").add_attribute("k", "v")));
     }
     // messages of every kind an Empty-typed response can carry (they are lifted to the chain's type
     // by the *_empty steps and must come through unchanged)
@@ -574,6 +582,39 @@ pub fn run_c20(ctx: &Ctx) -> i32 {
             let copies: Vec<Option<cosmwasm_std::Checksum>> = [dup.as_ref().ok().copied(), dup2].iter().map(|d| d.and_then(|d| cs(&app, d))).collect();
             evals += 1;
             let want = if supplied { Some(w_checksum()) } else { orig };
+            // ... and the stored code IS this wrapper: instantiated in the App (next to hundreds of
+            // other wrappers, many with the very same supplied checksum), every entry point that
+            // answers is this chain's own
+            {
+                PLAIN_RESPONSES.with(|f| f.set(true));
+                let sender = Addr::unchecked("sender");
+                let via_of = |r: AnyResult<AppResponse>| -> String {
+                    match r {
+                        Ok(r) => r.events.iter().flat_map(|e| e.attributes.iter()).find(|a| a.key == "via").map(|a| a.value.clone()).unwrap_or_else(|| "<no via attribute>".into()),
+                        Err(_) => "Err".into(),
+                    }
+                };
+                let (we, wq) = if ctor == "new" { ("exec_c", "query_c") } else { ("exec_e", "query_e") };
+                let step = |p: &str| steps.iter().find(|s| s.starts_with(p)).map(|s| s.to_string()).unwrap_or_else(|| "Err".into());
+                match catch(|| app.instantiate_contract(id, sender.clone(), &Empty {}, &[], "l", Some("sender".into()))) {
+                    Ok(Ok(addr)) => {
+                        let got = vec![
+                            ("execute", catch(|| via_of(app.execute_contract(sender.clone(), addr.clone(), &Empty {}, &[]))).unwrap_or_else(|p| format!("PANIC {}", p)), we.to_string()),
+                            ("sudo", catch(|| via_of(app.wasm_sudo(addr.clone(), &Empty {}))).unwrap_or_else(|p| format!("PANIC {}", p)), step("sudo")),
+                            ("migrate", catch(|| via_of(app.migrate_contract(sender.clone(), addr.clone(), &Empty {}, id))).unwrap_or_else(|p| format!("PANIC {}", p)), step("migrate")),
+                            ("query", app.wrap().query_wasm_smart::<String>(addr.clone(), &Empty {}).unwrap_or_else(|_| "Err".into()), wq.to_string()),
+                        ];
+                        for (what, g, w) in got {
+                            evals += 1;
+                            if g != w {
+                                ctx.violation(&format!("c20:wrapper-entry-point:{}:stored-in-an-app", what), json!({"engine": "builders", "kind": "ContractWrapper", "constructor": ctor, "steps": steps, "what": format!("{} of the contract instantiated from the stored wrapper (code id {})", what, id), "got": g, "want": w}));
+                            }
+                        }
+                    }
+                    other => ctx.violation("c20:wrapper-entry-point:instantiate:stored-in-an-app", json!({"engine": "builders", "kind": "ContractWrapper", "constructor": ctor, "steps": steps, "result": format!("{:?}", other.map(|r| r.map(|a| a.into_string()).map_err(|e| format!("{:#}", e))))})),
+                }
+                PLAIN_RESPONSES.with(|f| f.set(false));
+            }
             if orig != want || copies.iter().any(|c| *c != want) || orig.is_none() {
                 ctx.violation(
                     &format!("c20:wrapper-checksum-{}", if orig != want { "lost" } else { "lost-in-copy" }),
